@@ -21,6 +21,7 @@ LEVEL = "model_checking"
 ALIAS_TABLES = [
     {"a": "b ", "b": "a "}, {"a": "a"}, {"a": "b", "b": "c", "c": "a x"}, {"a": "{ a; }"}, {"a": "echo $(", "b": "'"},
     {"a": "if x; then", "fi": "fi"}, {"a": "b \n c", "c": "a "}, {"for": "a", "x": "for "}, {"a": "cat <<E\n", "E": "a"},
+    {"a": "b x", "b": "a y"}, {"a": "b x ", "b": "c y", "c": "a z"}, {"a": "", "$": "a", "(": "a "}, {"a": "b; a", "b": "a & b "},
 ]
 
 
